@@ -105,6 +105,8 @@ def run(ctx):
         years = int(rng.integers(6, 11))
         t = [str(np.datetime64("2001-01-15") + np.timedelta64(30 * k, "D"))[:10] for k in range(12 * years)]
         months = [int(s[5:7]) for s in t]
+        if it % 2:
+            t = [s + "T12:00:00" for s in t]         # steps stamped at noon: the default window still runs to the last step
         dt = ["int16", "float32", "int16"][it % 3]
         cube = rng.gamma(2.0, 40.0, size=(len(t), 2, 2))
         cube[rng.random(cube.shape) < 0.15] = 0
@@ -114,7 +116,7 @@ def run(ctx):
         acc.append(dict(cube=cube.tolist(), dtype=dt, nodata=-9999.0, time=t, groups=months if it % 3 != 2 else None, begin=win[0], end=win[1]))
     # wider integer types holding values beyond the int16 range (seasonal totals in 1/100 mm): the kernel must see the values as they are
     for it, dt in enumerate(["int32", "int64"] + (["uint16", "int32"] if ctx.thorough else [])):
-        t = [str(np.datetime64("2001-01-15") + np.timedelta64(30 * k, "D"))[:10] for k in range(60)]
+        t = [str(np.datetime64("2001-01-15") + np.timedelta64(30 * k, "D"))[:10] + ["", "T06:00:00"][it % 2] for k in range(60)]
         cube = np.round(rng.gamma([2.0, 40.0][it % 2], [8000.0, 2500.0][it % 2] if dt != "uint16" else 900.0, size=(len(t), 2, 2)))
         cube[rng.random(cube.shape) < 0.1] = 0
         ndw = -9999.0 if dt != "uint16" else 32767.0
